@@ -348,8 +348,29 @@ def every_n_sweep(pid, tier, rng):
             if name == "Entropy":
                 xs = [x - 500 for x in xs]
             cases.append(Case(d, [("v", 0, x) for x in xs], {"view": name, "regime": "every-n", "mode": "f64", "model": False}))
+    # ordinary-magnitude special values as raw bit patterns: signed zeros in both orders, exact repeats, +-1, halves (a sign taken with signum(),
+    # a cache keyed by ==, a tie broken differently for -0.0 differ from the definition only here)
+    import struct
+    pool_vals = [0.0, -0.0, 0.0, -0.0, 1.0, -1.0, 1.0, 1.5, 1.5, -1.5, 0.25, 3.0, 2.0, 2.0, -2.0, 0.5]
+    floats = {}
+    for name in names:
+        if name in ("Roc", "Eft", "Cog"):
+            continue          # a zero base / zero denominator holds or divides: covered by the exact zero cases
+        lo = {"Roofing": 2, "Cyber": 6, "Pfe": 3}.get(name, 1)
+        for n in (max(lo, 2), max(lo, 3), max(lo, 5)):
+            for rep in range(2):
+                vals = []
+                while len(vals) < 3 * n + 16:
+                    v = rng.choice(pool_vals)
+                    vals.append(v)
+                    if rng.chance(0.35):
+                        vals.append(-v if v == 0.0 else v)
+                d = ("Roofing", n, 2, E) if name == "Roofing" else ((name, n, E, ("Ema", 1, E)) if name == "Pfe" else (name, n, E))
+                c = Case(d, [("v", 0, "x%016x" % struct.unpack("<Q", struct.pack("<d", v))[0]) for v in vals], {"view": name, "regime": "every-n/special-values", "mode": "f64", "model": False})
+                floats[id(c)] = vals
+                cases.append(c)
     run_impl(cases, mode="f64", profile="release")
-    jobs = [(c.desc, [float(x) for x in c.inputs()]) for c in cases]
+    jobs = [(c.desc, floats.get(id(c)) or [float(x) for x in c.inputs()]) for c in cases]
     with Pool(NPROC) as pool:
         exps = pool.map(_sweep_eval, jobs, chunksize=8)
     viols, seen = [], set()
@@ -892,6 +913,35 @@ def run_C02(rng, tier):
     viols = O.spec_check("C02", cases, "the definition over the last N values")
     dg, dv = dense_vs_exact(rng, tier, [v for v in C02_VIEWS if v != "Entropy"], "c02-long", spec=("C02", "the definition over the last N values"))
     viols += dv
+    # after MILLIONS of updates (2^22 + a few thousand; walk generated inside the executor and regenerated here) the answers must still be the
+    # definition over the last N values: a periodic rebuild / re-base / counter wrap leaks or double-counts a value only there
+    mcases = []
+    for name in [v for v in C02_VIEWS if v != "Entropy"]:
+        n = rng.choice([2, 3, 5, 8])
+        Lm = 2 ** 22 + 2500 + rng.below(3000)
+        if tier != "quick":
+            Lm = 2 ** 24 + 2500 + rng.below(3000)
+        tail = [F(c_, 10) for c_ in lcg_walk(8, rng.below(2 ** 40) + 1)]
+        mcases.append(Case((name, n, E), [("W", 0, rng.below(2 ** 40) + 1, Lm)] + [("v", 0, x) for x in tail], {"view": name, "regime": "million-prefix", "model": False, "mode": "f64", "Lm": Lm}))
+    run_impl(mcases, mode="f64", profile="release")
+    for c in mcases:
+        name, n = c.desc[0], c.desc[1]
+        walk = [v / 10.0 for v in lcg_walk(c.meta["Lm"], c.ops[0][2])][-(n + 4):]
+        xs = walk + [float(x) for x in c.inputs()]
+        exp = SP.at_float(O.spec_for(c.desc), xs)[len(walk):]
+        for t, (e, b) in enumerate(zip(exp, c.obs[1:])):
+            g = O.f64_of_bits(b.val) if b.kind == "S" else None
+            tol = 1e-5 if name in ("Welford", "WelfordVar", "Vst", "Vsct") else 1e-6
+            sc = max(1.0, abs(e)) if isinstance(e, float) else 1.0
+            if name in ("Sma", "Min", "Max", "WelfordMean", "Welford"):
+                sc = 400.0
+            if name == "WelfordVar":
+                sc = 160000.0
+            if not (isinstance(e, float) and g is not None and math.isfinite(g) and abs(g - e) <= tol * sc):
+                viols.append(O.viol("c02-million-" + name.lower(), "%s after %d updates reports %s (f64), the definition over the last %d values gives %s"
+                                    % (d_sexpr(c.desc), c.meta["Lm"] + t + 1, g if g is not None else b.kind, n, e), [], desc=d_sexpr(c.desc),
+                                    stream={"generator": "W-walk (tenth units)", "seed": c.ops[0][2], "length": c.meta["Lm"], "then": [str(x) for x in c.inputs()]}))
+                break
     # units at the two ends of the binary64 range: small integers times 2^-1044 (subnormal numbers) and times 2^1000.  For the views below every
     # operation is exact or a single correctly rounded quotient at these scales, so the f64 output must equal the definition evaluated at binary64
     # to 1e-9 RELATIVE to the unit (a guard written with is_normal(), MIN_POSITIVE or an absolute epsilon shows only here)
@@ -1367,6 +1417,21 @@ def run_C11(rng, tier):
         cases.append(Case.simple(d, xs, {"regime": reg, "view": name}))
     run_impl(cases)
     viols = O.spec_check("C11", cases, "the batch re-evaluation of the defining difference equations")
+    # inside a chain the difference equations are driven by what the inner view DELIVERS (chain_closed_form): each view over an inner view with a
+    # warm-up against the same view over Echo replayed on the inner view's outputs (counting raw updates instead of delivered values shows only here)
+    cpairs = chain_groups(rng, 2 * len(C11_VIEWS) * k, names=C11_VIEWS)
+    cc = [c for p_ in cpairs for c in p_[:2]]
+    run_impl(cc)
+    cgroups, creps = [], []
+    for (ch, inn, core_d) in cpairs:
+        if "E" in inn.outs() or "E" in ch.outs():
+            continue
+        r = replay_case(core_d, inn.outs(), {"view": core_d[0], "role": "replay"})
+        cgroups.append((ch, inn, r))
+        creps.append(r)
+    run_impl(creps)
+    cases += cc + creps
+    viols += O.c01_chain(cgroups)
     return finish("C11", "C11", cases, viols, "each Ehlers-style view stand-alone (every MA for EFT/PFE), N from its minimum: streaming output vs batch re-evaluation of the difference equations from the whole history; exact rationals, coefficients through the shared surrogate exp/cos/sin")
 
 # ---------------------------------------------------------------------------------- C10
@@ -1800,8 +1865,8 @@ def run_C16(rng, tier):
             meta = {"view": name, "regime": "volatile-then-flat", "model": False, "flat_len": len(flat), "flat_value": str(v)}
             groups.append(("flat", Case.simple(d, xs, dict(meta, mode="f64")), Case.simple(d, xs, dict(meta, mode="ex")), v))
     # the same shapes at tiny and at large units (powers of two): scale-free indicators must not notice
-    for name in ("Hln", "Net", "Roc", "Sma", "Ema", "Min", "Cumulative"):      # not the sqrt-based ones: the surrogate sqrt is not scale-free
-        for kk in (-60, 40):
+    for name in ("Hln", "Net", "Roc", "Sma", "Ema", "Min", "Cumulative", "Rsi", "MyRsi", "Cog", "Max", "WelfordMean"):      # not the sqrt-based ones: the surrogate sqrt is not scale-free
+        for kk in (-60, 40, -70):
             n = rng.choice([2, 3, 5])
             d = (name, n, E)
             xs = [F(rng.below(9000) + 1, 10) * F(2) ** kk for _ in range(60)]
